@@ -10,6 +10,7 @@ run: Dsp/RmsDrift.v, RmsProjProofs.v, RmsDriftProofs.v, RmsOutProofs.v)."""
 import json, os, re, struct, glob, sys
 from concurrent.futures import ThreadPoolExecutor
 import framework as F
+import cov_regions_util
 import floatbase
 
 PROP = "C11"
@@ -147,7 +148,7 @@ def coq_op(o):
         return "ZNext " + F.zlist(o[1:])
     if k == "q":
         return "ZNextSq " + F.zlist(o[1:])
-    return {"c": "ZCurrent", "r": "ZReset", "w": "ZWindow"}[k]
+    return {"c": "ZCurrent", "r": "ZReset", "w": "ZWindow", "k": "ZClone"}[k]
 
 
 def build(item, ops=None):
@@ -161,13 +162,14 @@ def build(item, ops=None):
         it["line"] = f"R {it['fmt']} {it['nostd']} {it['chans']} {it['first']} {n} ; {' '.join(map(str, flat))} ; {ops_txt}"
         it["coq"] = (f"RCase {it['fmt']} {it['nostd']} {it['chans']} {it['first']} {F.zlistlist(it['init'])} "
                      "[" + "; ".join(coq_op(o) for o in it["ops"]) + "]")
-        it["cost"] = 3 + sum(len(o) for o in it["ops"]) * 7
+        it["cost"] = 3 + sum(len(o) for o in it["ops"]) * 7 + len(it["init"]) // 8
     else:
         flat = [v for fr in it["frames"] for v in fr]
         it.setdefault("fin", 0)
-        it["line"] = f"A {it['fmt']} {it['nostd']} {it['chans']} {it['n']} {it['sq']} {it['k']} {it['fin']} ; {' '.join(map(str, flat))}"
-        it["coq"] = (f"ACase {it['fmt']} {it['nostd']} {it['chans']} {it['n']} {F.zlistlist(it['frames'])} {it['sq']} {it['k']} {it['fin']}")
-        it["cost"] = 3 + it["k"] * it["chans"] * 7
+        it.setdefault("cl", -1)
+        it["line"] = f"A {it['fmt']} {it['nostd']} {it['chans']} {it['n']} {it['sq']} {it['k']} {it['fin']} {it['cl']} ; {' '.join(map(str, flat))}"
+        it["coq"] = (f"ACase {it['fmt']} {it['nostd']} {it['chans']} {it['n']} {F.zlistlist(it['frames'])} {it['sq']} {it['k']} {it['fin']} {F.zlit(it['cl'])}")
+        it["cost"] = 3 + (it["k"] + 2) * max(1, it["chans"]) * 7 + it["n"] * max(1, it["chans"])
         it["ops"] = []
     return it
 
@@ -209,6 +211,10 @@ def gen_cases(rng, tier, nostd_ok, nostd_adaptor_ok=False):
         nframes = r.range(lo, maxf) if r.chance(3, 4) else r.range(1, lo)
         resets = r.chance(1, 3)
         ops = gen_history(r, fmt, chans, n, pattern, nframes, resets)
+        rk = r.fork("clone")   # derive(Clone): the detector is replaced by its clone mid-history (a third of the histories)
+        if rk.chance(1, 3):
+            for _ in range(rk.range(1, 2)):
+                ops.insert(rk.range(1, len(ops)), ["k"])
         first = r.below(n)
         zero = [[0] * chans for _ in range(n)]
         init = zero
@@ -240,8 +246,10 @@ def gen_cases(rng, tier, nostd_ok, nostd_adaptor_ok=False):
         n = r.choice([1, 2, 3, 7])
         nfr = r.range(0, 14)
         frames = [[enc(fmt, sample_value(r, fmt, r.choice(["nominal", "loudquiet"]), i, nfr)) for _ in range(chans)] for i in range(nfr)]
+        kk = nfr + r.below(4)
+        rk = r.fork("clone")
         items.append(build(dict(kind="A", fmt=fmt, nostd=0, chans=chans, n=n, frames=frames, sq=int(r.below(4) == 0),
-                                k=nfr + r.below(4), pattern="adaptor")))
+                                k=kk, cl=(rk.below(kk) if kk and rk.chance(1, 2) else -1), pattern="adaptor")))
     # all twelve integer formats, to_float_frame through the GENERATED conversions: quiet (within a few
     # hundred codes of equilibrium -- a conversion that drops low bits turns these into silence), full
     # scale, random; mono and stereo; std and no_std
@@ -250,7 +258,8 @@ def gen_cases(rng, tier, nostd_ok, nostd_adaptor_ok=False):
         signed = name[0] in "iI"
         lo, hi = (-(1 << (b - 1)), (1 << (b - 1)) - 1) if signed else (0, (1 << b) - 1)
         mid = 0 if signed else 1 << (b - 1)
-        for chans in (1, 2):
+        for chans in (0, 1, 2):      # 0 = the bare sample type as a mono frame (to_float_frame = to_float_sample)
+            cw = max(1, chans)
             for nostd in ((0, 1) if nostd_ok else (0,)):
                 r = rng.fork(f"gen{name}_{chans}_{nostd}")
                 n = r.choice([1, 2, 3, 7])
@@ -264,10 +273,11 @@ def gen_cases(rng, tier, nostd_ok, nostd_adaptor_ok=False):
                 ops = []
                 for kind in ("quiet", "full", "quiet", "random"):
                     for _ in range(r.range(2, 3) if quick else r.range(3, 6)):
-                        ops.append(["n"] + [v(kind) for _ in range(chans)])
+                        ops.append(["n"] + [v(kind) for _ in range(cw)])
                     ops.append(["c"])
-                ops += [["w"], ["r"], ["n"] + [v("quiet") for _ in range(chans)], ["c"]]
-                items.append(build(dict(kind="R", fmt=10 + c, nostd=nostd, chans=chans, first=r.below(n), init=[[0] * chans for _ in range(n)],
+                ops += [["w"], ["r"], ["n"] + [v("quiet") for _ in range(cw)], ["c"]]
+                ops.insert(len(ops) // 2, ["k"])
+                items.append(build(dict(kind="R", fmt=10 + c, nostd=nostd, chans=chans, first=r.below(n), init=[[0] * cw for _ in range(n)],
                                         ops=ops, pattern="integer_format_generated_conv", resets=True)))
     # finite source (signal::from_iter) pulled well past exhaustion: the equilibrium frames that a
     # spent source yields must keep entering the window (the RMS decays to 0 within N steps);
@@ -281,8 +291,10 @@ def gen_cases(rng, tier, nostd_ok, nostd_adaptor_ok=False):
         nfr = r.range(0, 6) if r.chance(1, 6) else r.range(1, 6)
         frames = [[enc(fmt, sample_value(r, fmt, r.choice(["nominal", "const", "loudquiet"]), i, nfr)) for _ in range(chans)] for i in range(nfr)]
         nostd = 1 if (nostd_adaptor_ok and (k // 4) % 2 == 1) else 0
+        kk = nfr + 2 * n + r.range(0, 3)
+        rk = r.fork("clone")
         items.append(build(dict(kind="A", fmt=fmt, nostd=nostd, chans=chans, n=n, frames=frames, sq=int(r.below(5) == 0),
-                                k=nfr + 2 * n + r.range(0, 3), fin=1, pattern="adaptor_finite_past_end")))
+                                k=kk, fin=1, cl=(rk.below(kk) if rk.chance(1, 2) else -1), pattern="adaptor_finite_past_end")))
     # reset on a state whose running sum is EXACTLY zero while the window still holds small non-zero
     # squares: large sample, j small samples (their squares are absorbed by rounding next to the large
     # one), zeros until the large square is evicted (sum = large - large = 0), window observed, reset,
@@ -308,6 +320,46 @@ def gen_cases(rng, tier, nostd_ok, nostd_adaptor_ok=False):
                     ops += [["w"], ["c"]]
                     items.append(build(dict(kind="R", fmt=fmt, nostd=nostd, chans=chans, first=r.below(n), init=[[0] * chans for _ in range(n)],
                                             ops=ops, pattern="reset_on_zero_sum_stale_window", resets=True)))
+    # round 3 (coverage closing) -------------------------------------------------------------------
+    # the bare sample type as a mono frame (chans = 0): Rms<f32, _>, Rms<f64, _>, Rms<i16, _>, Rms<u8, _>:
+    # detector histories with resets and a clone, and the signal adaptor over closure and finite sources
+    for fmt in (0, 1, 2, 3):
+        for nostd in ((0, 1) if nostd_ok else (0,)):
+            for j in range(2 if quick else 8):
+                r = rng.fork(f"bare{fmt}_{nostd}_{j}")
+                n = r.choice([1, 2, 3, 7])
+                ops = gen_history(r, fmt, 1, n, ["loudquiet", "nominal", "edge"][(j + fmt) % 3], r.range(n + 3, 3 * n + 12), True)
+                ops.insert(r.range(1, len(ops)), ["k"])
+                ops.insert(r.range(1, len(ops)), ["w"])
+                items.append(build(dict(kind="R", fmt=fmt, nostd=nostd, chans=0, first=r.below(n), init=[[0] for _ in range(n)],
+                                        ops=ops, pattern="bare_sample_frame", resets=True)))
+        for fin in (0, 1):
+            r = rng.fork(f"bare_a{fmt}_{fin}")
+            n = r.choice([1, 2, 3])
+            nfr = r.range(2, 8)
+            frames = [[enc(fmt, sample_value(r, fmt, "nominal", i, nfr))] for i in range(nfr)]
+            kk = nfr + 2 * n
+            items.append(build(dict(kind="A", fmt=fmt, nostd=(1 if (nostd_adaptor_ok and fmt % 2 == fin) else 0), chans=0, n=n, frames=frames,
+                                    sq=int(fmt == 3), k=kk, fin=fin, cl=r.below(kk), pattern="bare_sample_frame_adaptor")))
+    # window lengths beyond every length used above (a length threshold in the detector would hide there):
+    # zero-initialised (verdict applies; the divisor `len as f32` is what differs) and arbitrary non-zero
+    # windows (non-zero squares are evicted from the first push on; bit-exact comparison only); few pushes
+    for j, n in enumerate([65, 129, 257, 1025, 4097] if quick else [65, 100, 129, 255, 257, 513, 1025, 2049, 4097, 16385]):
+        for variant in (0, 1):
+            r = rng.fork(f"largewin{n}_{variant}")
+            fmt = (j + variant) % 2
+            nostd = ((j + 1) % 2) if nostd_ok else 0
+            if variant == 0:
+                init = [[0] for _ in range(n)]
+            else:
+                init = [[enc(fmt, abs(rnd_unit(r)))] for _ in range(n)]
+            ops = []
+            for i in range(r.range(10, 16)):
+                ops.append(["n", enc(fmt, sample_value(r, fmt, "nominal", i, 16))])
+            ops.insert(r.range(2, len(ops)), ["c"])
+            ops += [["r"], ["n", enc(fmt, 0.5)], ["c"]]
+            items.append(build(dict(kind="R", fmt=fmt, nostd=nostd, chans=1, first=r.choice([0, n - 1, r.below(n)]), init=init,
+                                    ops=ops, pattern="large_window", resets=True)))
     return items
 
 
@@ -433,7 +485,7 @@ def load_corpus():
     return items
 
 
-CASE_KEYS = ("kind", "fmt", "nostd", "chans", "first", "init", "ops", "n", "frames", "sq", "k", "fin", "pattern", "resets")
+CASE_KEYS = ("kind", "fmt", "nostd", "chans", "first", "init", "ops", "n", "frames", "sq", "k", "fin", "cl", "pattern", "resets")
 
 
 def main(rep, tier, seed):
@@ -515,6 +567,10 @@ def main(rep, tier, seed):
                     "case": {k: items[i][k] for k in CASE_KEYS if k in items[i]}, "harness_line": items[i]["line"],
                     "std_harness_observations": outl[i], "rms_only_observations": o,
                     "replay": f"echo '<harness_line>' | {bin_rms_only}"})
+    # round 3: the std cases once more in the release profile (optimised, no debug assertions, no overflow
+    # checks); IEEE arithmetic and the panics of the detector do not depend on the profile
+    std_idx = [i for i, it in enumerate(items) if it["nostd"] == 0]
+    rep.extra["build_profiles"] = F.profile_phase(rep, "c11", [items[i] for i in std_idx], [outl[i] for i in std_idx], profiles=("release",))
     known = [e for e in F.known_findings(PROP) if e.get("kind") == "known" and e.get("id") == "K4"]
     mism = [i for i, c in enumerate(codes) if c & 1]
     verd = [i for i, c in enumerate(codes) if (c & 2) and not (c & 1)]
@@ -595,6 +651,8 @@ def finish(rep, info, items, outl, codes, dist, nostd_ok, bad=()):
     dist.update(hist)
     dist["frames_total"] = sum(1 for it in items for o in it["ops"] if o[0] in ("n", "q"))
     dist["no_std_harness"] = "built" if nostd_ok else ("not built" if nostd_ok is not None else "n/a")
+    dist["source_regions_never_entered"] = cov_regions_util.regions_for_evidence(
+        PROP, "Exclusions with reasons: lib/props/c11_cov_exclusions.json (Debug impl; the two cfg(not(std)) square roots, which the no_std harnesses execute; Sample::mul_amp = C03).")
     drift_proved = all(n in th for n in ("c11_drift_bound", "c11_drift_bound_f32", "c11_drift_bound_f64"))
     samples = [items[i]["line"][:400] for i in (0, len(items) // 2, len(items) - 1)] if items else []
     cov = {
